@@ -88,6 +88,40 @@ theorem syscall_sequence (p : SProg) (fuel : Nat) (key : Nat) (hleaf : ∀ cnt, 
     simp only [List.foldl_cons, List.length_cons]
     rw [ih _ h.2, h.1]; omega
 
+
+/-! ### `named_syscall_direct`, `register_named_system`, `revoke` -/
+
+/-- **Calling an unregistered name, or one whose system is running, fails without running anything.** -/
+theorem direct_unregistered_fails (p : SProg) (fuel : Nat) (st : SSt) (key x : Nat)
+    (h : st.nstore key = none ∨ st.nstore key = some none) :
+    exec p (fuel + 1) st (.call ⟨.m, key, x⟩) = (st, none) := by
+  rcases h with h | h <;> simp [exec, h]
+
+/-- **A registered idle name runs its own persistent system**: a leaf system sees the stored counter, returns
+    `input * 100 + counter`, and the counter persists incremented — the same state `named_syscall` uses for the name. -/
+theorem direct_runs_registered (p : SProg) (fuel : Nat) (st : SSt) (key x cnt : Nat) (h : st.nstore key = some (some cnt))
+    (hops : p.ops .n key cnt = []) (hwq : st.wq = []) :
+    (exec p (fuel + 2) st (.call ⟨.m, key, x⟩)).2 = some (x * 100 + cnt) ∧
+    (exec p (fuel + 2) st (.call ⟨.m, key, x⟩)).1.nstore key = some (some (cnt + 1)) := by
+  simp only [exec, h, runBody, hops]
+  split <;> simp [exec, upd, SSt.emit, hwq]
+
+/-- `register_named_system` gives the name a fresh system whatever the slot held; `revoke` removes the slot, so the next
+    `named_syscall` of the name starts from fresh state and `named_syscall_direct` fails. -/
+theorem register_resets (p : SProg) (fuel : Nat) (st : SSt) (key : Nat) :
+    (exec p (fuel + 1) st (.apply (.g key))).1.nstore key = some (some 0) ∧
+    (exec p (fuel + 1) st (.apply (.v key))).1.nstore key = none := by
+  simp [exec, upd, SSt.emit]
+
+theorem register_revoke_local (p : SProg) (fuel : Nat) (st : SSt) (key other : Nat) (hne : other ≠ key) :
+    (exec p (fuel + 1) st (.apply (.g key))).1.nstore other = st.nstore other ∧
+    (exec p (fuel + 1) st (.apply (.v key))).1.nstore other = st.nstore other ∧
+    (exec p (fuel + 1) st (.apply (.g key))).1.fstore = st.fstore ∧ (exec p (fuel + 1) st (.apply (.g key))).1.sstore = st.sstore := by
+  simp [exec, upd, SSt.emit, hne]
+
+example : (exec ⟨fun _ _ _ => [], fun _ _ => false⟩ 3 ({ nstore := fun k => if k = 2 then some (some 5) else none } : SSt) (.call ⟨.m, 2, 7⟩)).2 = some 705 := by
+  decide
+
 /-- **Re-entrancy** (`syscall`): while a key runs its resource is absent, so a nested call of the same key starts from
     fresh state. -/
 theorem reentrant_fresh (st : SSt) (key : Nat) :
